@@ -66,10 +66,11 @@ LawUndoOne == rot \in AlgRot => \A p \in ScopePts : UndoOneLaw(rot, t, p)
 LawUnion ==
     LET K == Children(W, tgt)
     IN \A i \in DOMAIN W :
-         /\ ~InScope(tgt, W[i]) => TR(W, tgt, t, rot)[i] = Unmoved(W[i], rot)
-         /\ K # {} /\ (\A c \in ScopeComps : c.path # tgt) =>
-              /\ Cardinality({k \in K : InScope(k, W[i])}) = IF InScope(tgt, W[i]) THEN 1 ELSE 0
+         /\ ~InScope(tgt, W[i]) => TR(W, tgt, t, rot)[i] = Unmoved(W[i], rot) /\ \A k \in K : ~InScope(k, W[i])
+         /\ InScope(tgt, W[i]) /\ W[i].path # tgt =>          \* stored below the target: moved by exactly one part
+              /\ Cardinality({k \in K : InScope(k, W[i])}) = 1
               /\ \A k \in K : InScope(k, W[i]) => TR(W, tgt, t, rot)[i] = TR(W, k, t, rot)[i]
+         /\ W[i].path = tgt => TR(W, tgt, t, rot)[i] = Moved(W[i], t, rot)     \* stored by the target itself
 (* the identity motion fixes everything; a non-trivial rotation fixes no direction                           *)
 LawIdentity == (rot[1] = rot[3] /\ t = <<0, 0>>) => \A c \in ScopeComps : Moved(c, t, rot) = Unmoved(c, rot)
 
